@@ -127,3 +127,95 @@ def fromfile(h):
                 ctx.oblige('_iterfromfilecache: one chunk reader per cached file, in order, opened by the wrapper\'s file name; merged with the '
                            'cached key function and the view\'s reverse flag', z3.BoolVal(bool(ok)))
         h.explore(body)
+
+
+# ------------------------------------------------------------------------------------------------ the forward merge and its dispatch
+@vc('C05.mergesorted.dispatch', functions=[S_ + '_mergesorted'], props=['C05', 'C11'],
+    assumptions=['generator functions are lazy'])
+def mergesorted_dispatch(h):
+    for reverse in (False, True):
+        def body(ctx, reverse=reverse):
+            it = h.interp(ctx)
+            key = UCall('getkey')
+            a, b = Opaque('run', 'run-0'), Opaque('run', 'run-1')
+            g = it.call(closure_of(it, S_ + '_mergesorted'), [key, reverse, a, b], {})
+            ok = isinstance(g, bi.GenObj)
+            if ok:
+                v = g.env.vars
+                its = v.get('iterables')
+                its = list(its.items) if isinstance(its, PyList) else list(its) if isinstance(its, (tuple, list)) else None
+                if reverse:
+                    ok = g.fn.qualname.endswith('_shortlistmergesorted') and v.get('key') is key and v.get('reverse') is True and its == [a, b]
+                else:
+                    ok = g.fn.qualname.endswith('_heapqmergesorted') and v.get('key') is key and its == [a, b]
+            ctx.oblige('_mergesorted(key, reverse=%s, *runs): %s gets the key function and the runs, in their order' %
+                       (reverse, 'the shortlist merge (reverse=True)' if reverse else 'the heapq merge'), z3.BoolVal(bool(ok)))
+        h.explore(body)
+
+
+@vc('C05.heapqmergesorted', functions=[S_ + '_heapqmergesorted'], props=['C05', 'C11'],
+    assumptions=['T5: heapq.merge(*runs) yields the elements of sorted runs in sorted order, taking equal elements from the earlier run first, lazily',
+                 'T6: the namedtuple constructor _Keyed(k, o) stores k and o (its comparisons: C05.Keyed)', 'two runs (the code is uniform in their number)',
+                 'stateless-body rule over the merged stream'])
+def heapqmerge(h):
+    """the forward k-way merge: every run is handed to heapq.merge as a LAZY stream of _Keyed(key(row), row) wrappers, runs in their
+    order (so ties between runs go to the earlier run: stability across chunks, with C05.Keyed), and every merged wrapper is unwrapped
+    to exactly its row, once, in merge order."""
+    from pyvc.interp import Instance, SrcIter, MapIter
+    qn = S_ + '_heapqmergesorted'
+
+    def body(ctx):
+        box = {}
+        KEY, OBJ = z3.Function('merged_key', smt.V, smt.V), z3.Function('merged_obj', smt.V, smt.V)
+
+        def keyed_ctor(interp, args, kw, node):
+            o = Instance(Kcls)
+            o.attrs['key'], o.attrs['obj'] = args[0], args[1]
+            return o
+
+        def hook(interp, fn, args, kwargs, node):
+            if fn.name.endswith('heapq.merge'):
+                box['merge_args'] = list(args)
+                M = sym_table(ctx, 'M', nmin=0)
+                box['M'] = M
+                base = SrcIter(M.rows, M.n, 'merged')
+
+                def wrap(x):
+                    o = Instance(Kcls)
+                    o.attrs['key'], o.attrs['obj'] = SCell(KEY(x.t)), SCell(OBJ(x.t))
+                    return True, o
+                return MapIter(base, wrap)
+            raise Unsupported('external call %s' % fn.name)
+
+        def delta(ls, x, dout):
+            e = z3.Select(box['M'].rows, ls.k.t)
+            ctx.oblige('_heapqmergesorted: each merged wrapper is unwrapped to exactly its row, yielded once, in merge order',
+                       z3.And(dout.len == 1, z3.Select(dout.arr, 0) == OBJ(e)))
+        it = h.interp(ctx, loops={(qn, 1): LoopSpec(delta=delta, label='merged stream')})
+        it.opaque_hook = hook
+        it.check_pulls = False
+        Kcls = closure_of(it, S_ + '_Keyed')
+        it.summaries[S_ + '_Keyed'] = keyed_ctor
+        key = UCall('getkey', may_raise=False)
+        A, B = sym_table(ctx, 'A', nmin=0), sym_table(ctx, 'B', nmin=0)
+        ra, rb = SrcIter(A.rows, A.n, 'run-0'), SrcIter(B.rows, B.n, 'run-1')
+        res = run_generator(it, closure_of(it, qn), [key, ra, rb])
+        if res.exc is not None:
+            ctx.oblige('_heapqmergesorted: never raises', z3.BoolVal(False), res.exc.origin or '')
+            return
+        margs = box.get('merge_args', [])
+        ok = len(margs) == 2 and all(isinstance(m, MapIter) for m in margs) and margs[0].inner is ra and margs[1].inner is rb \
+            and ra.pos is not None
+        ctx.oblige('_heapqmergesorted: heapq.merge gets one lazy stream per run, in run order', z3.BoolVal(bool(ok)))
+        if ok:
+            for j, (m, T) in enumerate(zip(margs, (A, B))):
+                x = sym_cell('probe%d' % j)
+                keep, w = m.fn(x)
+                kv = w.attrs.get('key') if isinstance(w, Instance) else None
+                good = keep is True and isinstance(w, Instance) and w.cls is Kcls and w.attrs.get('obj') is x and isinstance(kv, SCell) \
+                    and getattr(key, 'last_args', [None])[0] is x
+                ctx.oblige('_heapqmergesorted: run %d is wrapped element-wise as _Keyed(key(row), row) -- the key function applied to that row, the row itself kept' % j,
+                           z3.And(z3.BoolVal(bool(good)), (kv.t == bi.ucall_terms('getkey', [x.t])[0]) if good else z3.BoolVal(False)))
+            ctx.oblige('_heapqmergesorted: nothing is read from the runs before the merged stream is consumed (lazy), nothing is yielded besides the merged rows',
+                       z3.And(ctx.pre_loop_out.len == 0 if getattr(ctx, 'after_loop', None) else z3.BoolVal(True), res.out.len == 0))
+    h.explore(body)
